@@ -219,4 +219,50 @@ example : let s : State := run {} [.callStart, .callStart]
 example : let s : State := run {} [.callStart, .resolved true, .wakeStart, .sockDone true, .wakeStart, .callFinish, .callFinish]
     s.refused = 1 ∧ s.finish = .awaitTransport ∧ s.st = .sockOpen := by decide +kernel
 
+/-- is this event a `start_connection` call that the object accepts in state `s` -/
+def acceptsStart (s : State) : Ev → Bool
+  | .callStart => s.st = .init ∧ s.start = .idle
+  | _ => false
+
+/-- how many `start_connection` calls are accepted along a history -/
+def acceptCount : State → List Ev → Nat
+  | _, [] => 0
+  | s, e :: es => (if acceptsStart s e then 1 else 0) + acceptCount (step s e) es
+
+theorem step_used (s : State) (e : Ev) (h : s.start ≠ .idle) : (step s e).start ≠ .idle :=
+  (reach_used s _ (step_reach s e)).1 h
+
+theorem acceptCount_le (s : State) (evs : List Ev) : acceptCount s evs ≤ (if s.start = .idle then 1 else 0) := by
+  induction evs generalizing s with
+  | nil => simp [acceptCount]
+  | cons e es ih =>
+    simp only [acceptCount]
+    by_cases hs : s.start = .idle
+    · simp only [hs, ↓reduceIte]
+      by_cases ha : acceptsStart s e = true
+      · have he : e = .callStart := by cases e <;> simp_all [acceptsStart]
+        subst he
+        have hst : s.st = .init := by simpa [acceptsStart, hs] using ha
+        have hb := (c05_accept_begins s).1 hst hs
+        have := ih (step s .callStart)
+        simp only [hb, ↓reduceIte] at this
+        simp [ha]; omega
+      · have := ih (step s e)
+        simp only [ha]
+        split at this <;> simp <;> omega
+    · have hn := step_used s e hs
+      have := ih (step s e)
+      simp only [hn, ↓reduceIte] at this
+      have ha : acceptsStart s e = false := by cases e <;> simp_all [acceptsStart]
+      simp [ha, hs]; omega
+
+/-- **C05 (one connect attempt per object, counted).**  Along EVERY history of a connection object at most one
+`start_connection` call is ever accepted. -/
+theorem c05_one_attempt (noise login : Bool) (evs : List Ev) :
+    acceptCount { noise := noise, login := login } evs ≤ 1 := by
+  have := acceptCount_le { noise := noise, login := login } evs
+  split at this <;> omega
+
+example : acceptCount {} [.callStart, .callStart, .resolved false, .wakeStart, .callStart] = 1 := by decide +kernel
+
 end Esp.C05
